@@ -1407,7 +1407,7 @@ fn C08_a_wrong_preshared_static_key_never_completes() {
                 let has_pre = if victim_is_initiator { e.2.contains(&"s") } else { e.1.contains(&"s") };
                 if !has_pre { continue; }
                 for pos in [0usize, pl / 2, pl - 1] {
-                    let mut wrong = if victim_is_initiator { c.sr.1.clone() } else { c.si.1.clone() }; wrong[pos] ^= 0x01;
+                    let mut wrong = if victim_is_initiator { c.sr.1.clone() } else { c.si.1.clone() }; wrong[pos] ^= if pos == pl - 1 { 0x80 } else { 0x01 };   // (bit 255 of an X25519 key does not influence the DH result: only the transcript hash can notice it)
                     let params: NoiseParams = name.parse().unwrap();
                     let mk_side = |initiator: bool| -> Result<HandshakeState, Error> {
                         let mut b = match resolver(odd) { Some(r) => Builder::with_resolver(params.clone(), r), None => Builder::new(params.clone()) };
